@@ -1,8 +1,11 @@
 (* Session.v — the watch-mode session of beff-wasm (packages/beff-wasm/src/lib.rs): the thread-local cache of parsed
    modules (BUNDLER.files), LazyFileManager::get_or_fetch_file, update_file_content_inner, and a rebuild.
 
-   The compiler proper is a parameter: `parse` is parse_and_bind (a function of the file name and its text; import
-   specifiers are resolved against the set of file names, which a watch session never changes), `extract` is
+   The compiler proper is a parameter: `parse` is parse_and_bind as a function of the file name and its text.  It also
+   resolves the file's import specifiers against the files that exist at that moment; the model does not represent
+   that dependence, so its theorems are about histories over a fixed set of files (updates of existing files).  A
+   module created during the session leaves the cached importers with their old resolutions: a listed finding
+   (import_resolution_frozen_in_cached_importer), judged on the implementation.  `extract` is
    beff_core::extract seen as a function of what the file manager answers, returning the result and the files it asked for.
    The cache is represented by the text each cached module was parsed from (what the hook `cached_sources` reports). *)
 From Beff Require Export Model.Base.
